@@ -124,8 +124,8 @@ Lemma raw_got_event_Q1 : forall s j, J true s -> T1 s -> (j = KICK_RAW \/ (inr16
   Q1 s (raw_got_event sc s j).
 Proof.
   intros s j Jh T JR. unfold raw_got_event.
-  pose proof (ksame_read (kern s) (rw_rfd s j) (if efd_raw s =? 0 then 1024 else 8)) as KS.
-  destruct (k_read (kern s) (rw_rfd s j) (if efd_raw s =? 0 then 1024 else 8)) as [k1 [n|e]]; cbn [fst] in KS.
+  pose proof (ksame_read (kern s) (rw_rfd s j) (if raw_is_pipe s j then 1024 else 8)) as KS.
+  destruct (k_read (kern s) (rw_rfd s j) (if raw_is_pipe s j then 1024 else 8)) as [k1 [n|e]]; cbn [fst] in KS.
   - pose proof (J_set_kern_plain true s k1 Jh KS) as J1.
     pose proof (T1_set_kern s k1 T KS) as T1'.
     set (s1 := set_kern s k1) in *.
